@@ -223,6 +223,10 @@ func (c *Chunk) WriteFloat64(f float64) error {
 // Chunk buffer size, or 'ErrLimit' if this position is greater than the set
 // Chunk limit.
 func (c *Chunk) WriteBoolPos(p int, b bool) error {
+	if p < 0 {
+		// NOTE: A negative position is outside of the buffer (indexing it would panic).
+		return ErrInvalidIndex
+	}
 	if p >= c.Size() {
 		return io.EOF
 	}
@@ -257,6 +261,10 @@ func (c *Chunk) checkWriteSize(n int) (int, error) {
 // Chunk buffer size, or 'ErrLimit' if this position is greater than the set
 // Chunk limit.
 func (c *Chunk) WriteUint8Pos(p int, n uint8) error {
+	if p < 0 {
+		// NOTE: A negative position is outside of the buffer (indexing it would panic).
+		return ErrInvalidIndex
+	}
 	if p >= c.Size() {
 		return io.EOF
 	}
@@ -275,6 +283,10 @@ func (c *Chunk) WriteUint8Pos(p int, n uint8) error {
 // Chunk buffer size, or 'ErrLimit' if this position is greater than the set
 // Chunk limit.
 func (c *Chunk) WriteUint16Pos(p int, n uint16) error {
+	if p < 0 {
+		// NOTE: A negative position is outside of the buffer (indexing it would panic).
+		return ErrInvalidIndex
+	}
 	if p >= c.Size() || p+1 >= c.Size() {
 		return io.EOF
 	}
@@ -293,6 +305,10 @@ func (c *Chunk) WriteUint16Pos(p int, n uint16) error {
 // Chunk buffer size, or 'ErrLimit' if this position is greater than the set
 // Chunk limit.
 func (c *Chunk) WriteUint32Pos(p int, n uint32) error {
+	if p < 0 {
+		// NOTE: A negative position is outside of the buffer (indexing it would panic).
+		return ErrInvalidIndex
+	}
 	if p >= c.Size() || p+3 >= c.Size() {
 		return io.EOF
 	}
@@ -311,6 +327,10 @@ func (c *Chunk) WriteUint32Pos(p int, n uint32) error {
 // Chunk buffer size, or 'ErrLimit' if this position is greater than the set
 // Chunk limit.
 func (c *Chunk) WriteUint64Pos(p int, n uint64) error {
+	if p < 0 {
+		// NOTE: A negative position is outside of the buffer (indexing it would panic).
+		return ErrInvalidIndex
+	}
 	if p >= c.Size() || p+7 >= c.Size() {
 		return io.EOF
 	}
